@@ -3,6 +3,7 @@
  * Every function here is part of the trusted base and is listed in the evidence files. */
 #include "verif_rt.h"
 #include <stdlib.h>
+typedef int64_t i64;
 
 int __verif_exc_pending = 0; int __verif_exc_type = 0; u8* __verif_exc_obj = 0; u8 __verif_exc_buf[128];
 int __verif_aborted = 0;
@@ -172,6 +173,93 @@ float __verif_d2f(double x) {
 double __verif_f2d(float x) {
   if (x != x) { u32 b = __verif_bitcast(float, u32, x); u64 r = ((u64)(b & 0x80000000u) << 32) | 0x7FF8000000000000ULL | ((u64)(b & 0x3FFFFF) << 29); return __verif_bitcast(u64, double, r); }
   return (double)x;
+}
+
+/* ---- floating-point helpers on bit patterns (IEEE 754 binary32/binary64) ---- */
+#define FB32(x) __verif_bitcast(float, u32, x)
+#define BF32(b) __verif_bitcast(u32, float, (u32)(b))
+#define FB64(x) __verif_bitcast(double, u64, x)
+#define BF64(b) __verif_bitcast(u64, double, (u64)(b))
+float __verif_fabs32(float x) { return BF32(FB32(x) & 0x7FFFFFFFu); }
+double __verif_fabs64(double x) { return BF64(FB64(x) & 0x7FFFFFFFFFFFFFFFULL); }
+float __verif_copysign32(float x, float y) { return BF32((FB32(x) & 0x7FFFFFFFu) | (FB32(y) & 0x80000000u)); }
+double __verif_copysign64(double x, double y) { return BF64((FB64(x) & 0x7FFFFFFFFFFFFFFFULL) | (FB64(y) & 0x8000000000000000ULL)); }
+/* maxnum/minnum (fmax/fmin): a NaN operand is ignored; comparison on the sign-magnitude order of the bit patterns */
+static int lt32(u32 a, u32 b) { int sa = a >> 31, sb = b >> 31; if ((a | b) << 1 == 0) return 0; if (sa != sb) return sa; return sa ? a > b : a < b; }
+static int lt64(u64 a, u64 b) { int sa = (int)(a >> 63), sb = (int)(b >> 63); if ((a | b) << 1 == 0) return 0; if (sa != sb) return sa; return sa ? a > b : a < b; }
+#define SNAN32(a) ((((a) & 0x7FFFFFFFu) > 0x7F800000u) && !((a) & 0x00400000u))
+#define SNAN64(a) ((((a) << 1) > 0xFFE0000000000000ULL) && !((a) & 0x0008000000000000ULL))
+/* glibc: a signaling NaN operand makes the result a (quiet) NaN; a quiet NaN operand is ignored */
+float __verif_maxnum32(float x, float y) { u32 a = FB32(x), b = FB32(y); if (SNAN32(a) || SNAN32(b)) return BF32((SNAN32(a) ? a : b) | 0x00400000u); if ((a & 0x7FFFFFFFu) > 0x7F800000u) return y; if ((b & 0x7FFFFFFFu) > 0x7F800000u) return x; return lt32(a, b) ? y : x; }
+float __verif_minnum32(float x, float y) { u32 a = FB32(x), b = FB32(y); if (SNAN32(a) || SNAN32(b)) return BF32((SNAN32(a) ? a : b) | 0x00400000u); if ((a & 0x7FFFFFFFu) > 0x7F800000u) return y; if ((b & 0x7FFFFFFFu) > 0x7F800000u) return x; return lt32(b, a) ? y : x; }
+double __verif_maxnum64(double x, double y) { u64 a = FB64(x), b = FB64(y); if (SNAN64(a) || SNAN64(b)) return BF64((SNAN64(a) ? a : b) | 0x0008000000000000ULL); if ((a << 1) > 0xFFE0000000000000ULL) return y; if ((b << 1) > 0xFFE0000000000000ULL) return x; return lt64(a, b) ? y : x; }
+double __verif_minnum64(double x, double y) { u64 a = FB64(x), b = FB64(y); if (SNAN64(a) || SNAN64(b)) return BF64((SNAN64(a) ? a : b) | 0x0008000000000000ULL); if ((a << 1) > 0xFFE0000000000000ULL) return y; if ((b << 1) > 0xFFE0000000000000ULL) return x; return lt64(b, a) ? y : x; }
+/* memoised floating-point operations: exact (the memoised value IS the IEEE result of that operation on those bit patterns);
+ * equivalence of an implementation with a reference formula is then decided on shared adder/multiplier/divider circuits */
+#ifdef __CPROVER__
+#define FP_SLOTS 24
+static int f3_op[FP_SLOTS]; static u32 f3_a[FP_SLOTS], f3_b[FP_SLOTS]; static float f3_r[FP_SLOTS]; static int f3_n = 0;
+float __verif_fop32(int op, float a, float b) {
+  u32 x = FB32(a), y = FB32(b);
+  for (int i = 0; i < FP_SLOTS; i++)
+    if (i < f3_n && f3_op[i] == op && ((f3_a[i] == x && f3_b[i] == y) || ((op == 0 || op == 2) && f3_a[i] == y && f3_b[i] == x))) return f3_r[i];
+  float r = op == 0 ? a + b : op == 1 ? a - b : op == 2 ? a * b : a / b;
+  if (f3_n < FP_SLOTS) { f3_op[f3_n] = op; f3_a[f3_n] = x; f3_b[f3_n] = y; f3_r[f3_n] = r; f3_n++; }
+  return r;
+}
+static int f6_op[FP_SLOTS]; static u64 f6_a[FP_SLOTS], f6_b[FP_SLOTS]; static double f6_r[FP_SLOTS]; static int f6_n = 0;
+double __verif_fop64(int op, double a, double b) {
+  u64 x = FB64(a), y = FB64(b);
+  for (int i = 0; i < FP_SLOTS; i++)
+    if (i < f6_n && f6_op[i] == op && ((f6_a[i] == x && f6_b[i] == y) || ((op == 0 || op == 2) && f6_a[i] == y && f6_b[i] == x))) return f6_r[i];
+  double r = op == 0 ? a + b : op == 1 ? a - b : op == 2 ? a * b : a / b;
+  if (f6_n < FP_SLOTS) { f6_op[f6_n] = op; f6_a[f6_n] = x; f6_b[f6_n] = y; f6_r[f6_n] = r; f6_n++; }
+  return r;
+}
+#else
+float __verif_fop32(int op, float a, float b) { return op == 0 ? a + b : op == 1 ? a - b : op == 2 ? a * b : a / b; }
+double __verif_fop64(int op, double a, double b) { return op == 0 ? a + b : op == 1 ? a - b : op == 2 ? a * b : a / b; }
+#endif
+/* logb: unbiased exponent as a floating value; +-0 -> -inf, +-inf -> +inf, NaN -> NaN (C99 7.12.6.11, F.9.3.11) */
+float ext_logbf(float x) {
+  u32 b = FB32(x) & 0x7FFFFFFFu; if (b > 0x7F800000u) return x; if (b == 0x7F800000u) return BF32(0x7F800000u); if (b == 0) return BF32(0xFF800000u);
+  int e = (int)(b >> 23) - 127;
+  if ((b >> 23) == 0) { u32 m = b; e = -126; for (int i = 0; i < 23; i++) if (!(m & 0x400000u)) { m <<= 1; e--; } e--; }
+  return (float)e;
+}
+double ext_logb(double x) {
+  u64 b = FB64(x) & 0x7FFFFFFFFFFFFFFFULL; if (b > 0x7FF0000000000000ULL) return x; if (b == 0x7FF0000000000000ULL) return BF64(0x7FF0000000000000ULL); if (b == 0) return BF64(0xFFF0000000000000ULL);
+  int e = (int)(b >> 52) - 1023;
+  if ((b >> 52) == 0) { u64 m = b; e = -1022; for (int i = 0; i < 52; i++) if (!(m & 0x8000000000000ULL)) { m <<= 1; e--; } e--; }
+  return (double)e;
+}
+/* scalbn: x * 2^n correctly rounded (round to nearest even), on the bit pattern: one rounding, overflow to infinity, gradual underflow */
+static u64 rt_scalb(u64 sign, u64 mant, i64 e, int mbits, int emax) {
+  /* value = mant * 2^(e - mbits) with mant in [2^mbits, 2^(mbits+1)) ; result packed as sign | exponent field | fraction (without sign shift) */
+  if (e > emax) return sign | ((u64)(2 * emax + 1) << mbits);                  /* overflow -> inf */
+  i64 emin = 1 - emax;
+  if (e >= emin) return sign | ((u64)(e + emax) << mbits) | (mant & (((u64)1 << mbits) - 1));
+  i64 sh = emin - e;                                                             /* subnormal result: shift right by sh with RNE */
+  if (sh > mbits + 1) return sign;
+  u64 q = mant >> sh, rem = mant & (((u64)1 << sh) - 1), half = (u64)1 << (sh - 1);
+  if (rem > half || (rem == half && (q & 1))) q++;
+  return sign | q;                                                               /* a carry into the exponent field gives the smallest normal */
+}
+float ext_scalbnf(float x, u32 n_) {
+  int n = (int)n_; u32 b = FB32(x); u32 s = b & 0x80000000u, a = b & 0x7FFFFFFFu;
+  if (a >= 0x7F800000u || a == 0) return x;
+  i64 e = (i64)(a >> 23) - 127; u64 m = (a & 0x7FFFFFu) | 0x800000u;
+  if ((a >> 23) == 0) { m = a; e = -126; for (int i = 0; i < 23; i++) if (!(m & 0x800000u)) { m <<= 1; e--; } }
+  if (n > 400) n = 400; if (n < -400) n = -400;
+  return BF32((u32)rt_scalb(s, m, e + n, 23, 127));
+}
+double ext_scalbn(double x, u32 n_) {
+  int n = (int)n_; u64 b = FB64(x); u64 s = b & 0x8000000000000000ULL, a = b & 0x7FFFFFFFFFFFFFFFULL;
+  if (a >= 0x7FF0000000000000ULL || a == 0) return x;
+  i64 e = (i64)(a >> 52) - 1023; u64 m = (a & 0xFFFFFFFFFFFFFULL) | 0x10000000000000ULL;
+  if ((a >> 52) == 0) { m = a; e = -1022; for (int i = 0; i < 52; i++) if (!(m & 0x10000000000000ULL)) { m <<= 1; e--; } }
+  if (n > 3000) n = 3000; if (n < -3000) n = -3000;
+  return BF64(rt_scalb(s, m, e + n, 52, 1023));
 }
 
 /* ---- libc models (ISO C semantics, bit exact) ---- */
